@@ -1,6 +1,7 @@
 import StorageModel.Driver.Common
 import StorageModel.C17.Snapshot
 import StorageModel.C17.Staged
+import StorageModel.C17.TimelineConc
 import StorageModel.C17.LockTable
 import StorageModel.Generated.DbLocks
 /- model driver for C17 (line protocol documented in /verif/harness/c17.go).
@@ -12,6 +13,8 @@ import StorageModel.Generated.DbLocks
      snaptc:<k>:<pre>:<post>  snapuc:<k>:<ws>:<pre>:<post>  streamc:<k>:<pre>:<post>
                                            reading calls (g = GetSnapshotId, d = dump; `-` none) inside the
                                            transaction before / after the copy -> intx:<pre obs>:<main obs>:<post obs>
+
+     tlconc <K> <modes> <pre>              K GetTimelineId requests released together after a restore -> ok | ok|tlrace
 
    default mode : case line                  -> the model's observations
    `spec` mode  : case line TAB impl output  -> `ok`, or `fail@<i>:<op>` naming the first operation at
@@ -198,6 +201,24 @@ def stageOutcomes (which : String) : String :=
     | "rootbucket" => if takesReadLock t "RootBucket" then "ok|hang" else "ok"
     | _ => "ok"
 
+/-- all interleavings of two requesters, `n` steps in total -/
+def scheds2 : Nat → List (List Nat)
+  | 0 => [[]]
+  | n + 1 => (scheds2 n).flatMap fun s => [0 :: s, 1 :: s]
+
+/-- `tlconc`: K GetTimelineId requests released together after a restore.  The requester program is read
+    off the regenerated table; the transition system says whether some interleaving of two requesters
+    generates more than one id (`tlrace`) -/
+def tlconcOutcomes : String :=
+  match readTlProgram (MetaOps.get Generated.dbMetaOps "GetTimelineId") with
+  | none => "unmodelled"
+  | some prog =>
+    let sys : Sys := { db := { mt := { present := true, sid := some 1, rt := some true } } }
+    let racy := (scheds2 (2 * prog.length)).any fun sc =>
+      let s := texec (tinit sys prog [.default, .default]) sc
+      s.sys.idf != 1 || s.reqs.any fun r => r != .done (some 1) && (match r with | .done _ => true | _ => false)
+    if racy then "ok|tlrace" else "ok"
+
 def step (line : String) : String :=
   match splitSp line with
   | "seq" :: toks =>
@@ -206,6 +227,7 @@ def step (line : String) : String :=
     | none => "bad-case"
   | ["conc", kinds, _, _] => concOutcomes kinds
   | ["stage", which] => stageOutcomes which
+  | ["tlconc", _, _, _] => tlconcOutcomes
   | _ => "bad-case"
 
 def specStep (line : String) : String :=
@@ -222,6 +244,7 @@ def specStep (line : String) : String :=
       | _, _ => "unparsed"
     | "conc" :: _ => if impl == "ok" then "ok" else "fail:" ++ ((impl.splitOn ":").headD "?")
     | "stage" :: _ => if impl == "ok" then "ok" else "fail:" ++ ((impl.splitOn ":").headD "?")
+    | "tlconc" :: _ => if impl == "ok" then "ok" else "fail:" ++ ((impl.splitOn ":").headD "?")
     | _ => "bad-case"
   | _ => "bad-case"
 
